@@ -267,7 +267,18 @@ pub fn run_box_case(bytes: &[u8]) -> (Vec<String>, bool, Vec<u32>) {
                 let n = (g(1) % 9) as usize;
                 let vals: Vec<u32> = (0..n).map(|j| g(3 + j) as u32).collect();
                 cx.transfers += 1;
-                let (s, t): (BBox<[El<0>]>, Box<[El<1>]>) = match g(2) % 3 {
+                let (s, t): (BBox<[El<0>]>, Box<[El<1>]>) = match g(2) % 5 {
+                    3 | 4 => {
+                        // a vector with plenty of spare capacity (possibly truncated) that is the newest allocation
+                        let mut v: BVec<El<0>> = BVec::with_capacity_in(2 * n + 4 + (g(12) as usize % 8), b);
+                        v.extend(vals.iter().map(|&x| El::new(x)));
+                        let mut w: Vec<El<1>> = vals.iter().map(|&x| El::new(x)).collect();
+                        if g(2) % 5 == 4 && n > 1 {
+                            v.truncate(n / 2);
+                            w.truncate(n / 2);
+                        }
+                        (v.into_boxed_slice(), w.into_boxed_slice())
+                    }
                     0 => {
                         let v: BVec<El<0>> = BVec::from_iter_in(vals.iter().map(|&x| El::new(x)), b);
                         (v.into_boxed_slice(), vals.iter().map(|&x| El::new(x)).collect::<Vec<_>>().into_boxed_slice())
@@ -280,8 +291,24 @@ pub fn run_box_case(bytes: &[u8]) -> (Vec<String>, bool, Vec<u32>) {
                 };
                 cx.ledger("building a boxed slice");
                 let vs: Vec<u32> = s.iter().map(|x| x.val).collect();
-                if vs != vals || s.len() != t.len() {
-                    cx.v(format!("boxed slice holds {:?} but was built from {:?}", vs, vals));
+                let vt: Vec<u32> = t.iter().map(|x| x.val).collect();
+                if vs != vt || s.len() != t.len() {
+                    cx.v(format!("boxed slice holds {:?} but std's holds {:?} (built from {:?})", vs, vt, vals));
+                }
+                // the box must keep its elements while other things are allocated in the same arena
+                let other = b.alloc_slice_fill_copy(24 + g(13) as usize % 40, 0xEEu8);
+                let other2 = b.alloc(0xDEAD_BEEFu32);
+                let vs2: Vec<u32> = s.iter().map(|x| x.val).collect();
+                if vs2 != vt {
+                    cx.v(format!("boxed slice changed from {:?} to {:?} when something else was allocated in the arena", vt, vs2));
+                }
+                if other.iter().any(|x| *x != 0xEE) || *other2 != 0xDEAD_BEEF {
+                    cx.v("a later allocation overlaps the boxed slice's elements".into());
+                }
+                for x in s.iter() {
+                    if drops_of(0, x.id) != 0 {
+                        cx.v(format!("element #{} of the boxed slice was already dropped", x.id));
+                    }
                 }
                 let cap0 = arena_cap(b);
                 drop(s);
